@@ -1,217 +1,114 @@
 /-
-K1 `TreeReduce`: the tree reduction of `dask/array/_reductions_generic.py`
-(`reduction` → `_tree_reduce` → `partial_reduce`) and the per-block functions of
-`dask/array/reductions.py` / `dask/array/chunk.py` that are plugged into it.
+K1 (dataframe part): `TreeReduce._layer` / `ApplyConcatApply._lower` / `Reduction.{chunk,combine,aggregate}`
+(`dask/dataframe/dask_expr/_reductions.py`), transliterated, plus pandas' reduction kernels on one
+column block as specification functions.
 
-Python                                        Lean
-------                                        ----
-tlz.partition_all(k, seq)                     `partitionAll k xs`   (k = 0 ↦ [] as toolz does)
-itertools.product(*lists)                     `cartesian`
-partial_reduce (keys, lol_tuples of inputs)   `roundPlan` (output key ↦ input block coordinates, C order)
-_tree_reduce (depth-1 × combine, 1 × agg)     `treePlan` / `treeReduce` (1-d) / `gridReduce` (n-d grid of blocks)
-depth = ceil(log(n, k)) (a float formula)     a *parameter* `depth`; the theorems assume `n ≤ k ^ depth`,
-                                              which the harness checks for the value dask computed
-chunk.sum / prod / any / all / chunk_min …     `Red` instances below (per-block partial results)
-arg_chunk / _arg_combine / arg_agg            `argChunk`, `argCombine` ((value, global flat index) pairs)
-chunk.topk / topk_aggregate                   `topkChunk`, `topkAgg`
-A block (an ndarray) is passed as its raveled element list; only the *reduced* axes are modelled
-(kept axes are pointwise, the harness slices them away).
+Python                                                 Lean
+------                                                 ----
+`toolz.partition_all(n, keys)`                         `partitionAll n keys`
+`TreeReduce.split_every` (None→8, False, int ≥ 2,      `splitEvery : SE → Option (Option Nat)`
+   otherwise ValueError)                                   (outer `none` = ValueError, inner `none` = False)
+`while split_every is not False and len(keys) > split_every:`  `treeLoop` (fuel; `treeLoop_fuel` proves it suffices)
+`d[name, 0] = aggregate(keys)`                         `treeReduce`
+`Reduction.chunk/combine/aggregate` = the pandas       `kernelReduce kernel` (chunk = combine = aggregate = kernel
+   method on the partition / on the concatenated          on the concatenation of the partial results)
+   partial results
+`Count` (chunk `count`, aggregate `sum`), `Mean` =     `daskCount`, `daskMean`
+   `Sum / Count`
+a numeric cell / NaN                                   `Cell = Option Int`
 Import-free (linked into the native driver).
 -/
 namespace Dask.TreeReduce
 
-variable {α β γ : Type}
+abbrev Cell := Option Int
 
-/-- `tlz.partition_all k xs`. -/
-def partitionAll (k : Nat) : List α → List (List α)
-  | [] => []
-  | x :: xs =>
-    if _h : k = 0 then [] else (x :: xs).take k :: partitionAll k ((x :: xs).drop k)
-termination_by l => l.length
-decreasing_by simp only [List.length_drop, List.length_cons]; omega
+/-- `toolz.partition_all n xs` (n ≥ 1): consecutive batches of `n`, the last one shorter. -/
+def partitionAllAux (n : Nat) : Nat → List α → List (List α)
+  | 0, _ => []
+  | fuel + 1, xs => if xs.isEmpty then [] else xs.take n :: partitionAllAux n fuel (xs.drop n)
 
-/-- One `partial_reduce` along a single axis: every group of `k` consecutive blocks becomes one block. -/
-def partialReduce (f : List β → γ) (k : Nat) (xs : List β) : List γ :=
-  (partitionAll k xs).map f
+def partitionAll (n : Nat) (xs : List α) : List (List α) := partitionAllAux n xs.length xs
 
-def iter (f : α → α) : Nat → α → α
-  | 0, x => x
-  | n + 1, x => iter f n (f x)
+/-- the raw `split_every` operand -/
+inductive SE where
+  | default            -- None
+  | off                -- False
+  | n (k : Int)
+  deriving Repr, DecidableEq
 
-/-- `_tree_reduce` along one axis: `depth - 1` rounds of `combine`, then one round of `aggregate`.
-    The result is the list of output blocks along the axis (dask declares it to have length 1). -/
-def treeReduce (combine : List β → β) (aggregate : List β → γ) (k depth : Nat) (xs : List β) : List γ :=
-  partialReduce aggregate k (iter (partialReduce combine k) (depth - 1) xs)
+/-- `TreeReduce.split_every`: outer `none` = ValueError("split_every must be greater than 1 or False") -/
+def splitEvery : SE → Option (Option Nat)
+  | .default => some (some 8)
+  | .off => some none
+  | .n k => if k ≥ 2 then some (some k.toNat) else none
 
-/-- least `d` with `n ≤ k ^ d` (for `k ≥ 2`); `fuel` bounds the search. -/
-def ceilLogAux (k n : Nat) : Nat → Nat → Nat → Nat
-  | 0, d, _ => d
-  | fuel + 1, d, p => if n ≤ p then d else ceilLogAux k n fuel (d + 1) (p * k)
-
-def ceilLog (k n : Nat) : Nat := ceilLogAux k n n 0 1
-
-/-! ## n-d block plans (graph structure of `partial_reduce`) -/
-
-/-- `itertools.product(*ls)` -/
-def cartesian : List (List α) → List (List α)
-  | [] => [[]]
-  | xs :: rest => xs.flatMap fun x => (cartesian rest).map (x :: ·)
-
-/-- `list(partition_all(split_every.get(i, 1), range(n)))` for one axis -/
-def axisParts (split : Option Nat) (n : Nat) : List (List Nat) :=
-  partitionAll (split.getD 1) (List.range n)
-
-/-- keep the coordinates of the axes that are *not* in `split_every` (`get(out_axis, k)`) -/
-def dropAxes : List (Option Nat) → List Nat → List Nat
-  | none :: ss, k :: ks => k :: dropAxes ss ks
-  | some _ :: ss, _ :: ks => dropAxes ss ks
-  | _, _ => []
-
-/-- One `partial_reduce`: `(output key, input block coordinates in the C order of the lol_tuples)`.
-    `split[i] = some k` iff axis `i` is in the `split_every` dict. -/
-def roundPlan (numblocks : List Nat) (split : List (Option Nat)) (keepdims : Bool) :
-    List (List Nat × List (List Nat)) :=
-  let ps := List.zipWith axisParts split numblocks
-  let keys := cartesian (ps.map fun p => List.range p.length)
-  let groups := cartesian ps
-  (keys.zip groups).map fun (k, p) => (if keepdims then k else dropAxes split k, cartesian p)
-
-/-- `numblocks` of the output of one `partial_reduce(keepdims=True)` -/
-def roundNumblocks (numblocks : List Nat) (split : List (Option Nat)) : List Nat :=
-  (List.zipWith axisParts split numblocks).map List.length
-
-/-- all `depth` rounds of `_tree_reduce` -/
-def treePlan (numblocks : List Nat) (split : List (Option Nat)) (keepdims : Bool) :
-    Nat → List (List (List Nat × List (List Nat)))
-  | 0 => []
-  | 1 => [roundPlan numblocks split keepdims]
-  | d + 1 => roundPlan numblocks split true :: treePlan (roundNumblocks numblocks split) split keepdims d
-
-/-- a grid of blocks as a Python dict `key ↦ value` in insertion order (later entries win) -/
-abbrev Grid (β : Type) := List (List Nat × β)
-
-def Grid.get? (g : Grid β) (k : List Nat) : Option β :=
-  (g.reverse.find? (·.1 == k)).map (·.2)
-
-/-- evaluate one round on a grid; `none` = a missing dependency -/
-def roundEval (f : List β → γ) (plan : List (List Nat × List (List Nat))) (g : Grid β) : Option (Grid γ) :=
-  plan.mapM fun (k, ins) => do
-    let vs ← ins.mapM g.get?
-    pure (k, f vs)
-
-/-- `_tree_reduce` on an n-d grid of per-block partial results. -/
-def gridReduce (combine : List β → β) (aggregate : List β → γ) (numblocks : List Nat)
-    (split : List (Option Nat)) (keepdims : Bool) : Nat → Grid β → Option (Grid γ)
+/-- the `while` loop of `TreeReduce._layer`; `none` = fuel exhausted -/
+def treeLoop (combine : List β → β) (k : Nat) : Nat → List β → Option (List β)
   | 0, _ => none
-  | 1, g => roundEval aggregate (roundPlan numblocks split keepdims) g
-  | d + 1, g => do
-    let g' ← roundEval combine (roundPlan numblocks split true) g
-    gridReduce combine aggregate (roundNumblocks numblocks split) split keepdims d g'
+  | fuel + 1, keys =>
+    if keys.length > k then treeLoop combine k fuel ((partitionAll k keys).map combine) else some keys
 
-/-- the initial grid: block `i` (C order) of the chunk-level results -/
-def mkGrid (numblocks : List Nat) (vals : List β) : Grid β :=
-  (cartesian (numblocks.map List.range)).zip vals
+/-- the batches formed at every level of the loop (for comparing the tree SHAPE with `_layer`'s dict) -/
+def treeTrace (combine : List β → β) (k : Nat) : Nat → List β → List (List (List β))
+  | 0, _ => []
+  | fuel + 1, keys =>
+    if keys.length > k then
+      partitionAll k keys :: treeTrace combine k fuel ((partitionAll k keys).map combine)
+    else []
 
-/-! ## The reductions plugged into the tree (`chunk`, `combine`, `aggregate`) -/
+/-- `TreeReduce._layer` evaluated: combine in batches until at most `split_every` keys remain, then aggregate. -/
+def treeReduce (se : Option Nat) (combine : List β → β) (aggregate : List β → γ) (keys : List β) : Option γ :=
+  match se with
+  | none => some (aggregate keys)
+  | some k => (treeLoop combine k (keys.length + 1) keys).map aggregate
 
-/-- a reduction as dask decomposes it; `chunk` may raise (`none`). -/
-structure Red (α β γ : Type) where
-  chunk : List α → Option β
-  combine : List β → β
-  aggregate : List β → γ
+/-- `ApplyConcatApply._lower` → `TreeReduce(Chunk(frame))` on a partitioned column -/
+def aca (se : Option Nat) (chunk : List Cell → β) (combine : List β → β) (aggregate : List β → γ)
+    (parts : List (List Cell)) : Option γ :=
+  treeReduce se combine aggregate (parts.map chunk)
 
-def isum (xs : List Int) : Int := xs.foldr (· + ·) 0
-def iprod (xs : List Int) : Int := xs.foldr (· * ·) 1
-def band (xs : List Bool) : Bool := xs.foldr (· && ·) true
-def bor (xs : List Bool) : Bool := xs.foldr (· || ·) false
+/-! ## pandas kernels on one column block -/
 
-/-- minimum of a non-empty list; `[]` ↦ `none` (NumPy raises on a zero-size array) -/
-def imin? : List Int → Option Int
-  | [] => none
-  | x :: xs => some (xs.foldl min x)
+def valid (p : List Cell) : List Int := p.filterMap id
 
-def imax? : List Int → Option Int
-  | [] => none
-  | x :: xs => some (xs.foldl max x)
+/-- `Series.sum(skipna)`; with `skipna=False` any NaN poisons, the empty sum is 0 -/
+def sumK (skipna : Bool) (p : List Cell) : Cell :=
+  if !skipna && p.any Option.isNone then none else some ((valid p).foldl (· + ·) 0)
 
-/-- `chunk_min`: a size-0 block gives an empty array (dropped by the concatenation), else `[min]` -/
-def minPart (xs : List Int) : List Int := (imin? xs).toList
-def maxPart (xs : List Int) : List Int := (imax? xs).toList
+def prodK (skipna : Bool) (p : List Cell) : Cell :=
+  if !skipna && p.any Option.isNone then none else some ((valid p).foldl (· * ·) 1)
 
-def redSum : Red Int Int Int := ⟨fun b => some (isum b), isum, isum⟩
-def redProd : Red Int Int Int := ⟨fun b => some (iprod b), iprod, iprod⟩
-def redAny : Red Int Bool Bool := ⟨fun b => some (bor (b.map (· != 0))), bor, bor⟩
-def redAll : Red Int Bool Bool := ⟨fun b => some (band (b.map (· != 0))), band, band⟩
-/-- `da.min`: chunk/combine = `chunk_min` (after concatenation), aggregate = `np.min` (raises on empty) -/
-def redMin : Red Int (List Int) (Option Int) :=
-  ⟨fun b => some (minPart b), fun ps => minPart ps.flatten, fun ps => imin? ps.flatten⟩
-def redMax : Red Int (List Int) (Option Int) :=
-  ⟨fun b => some (maxPart b), fun ps => maxPart ps.flatten, fun ps => imax? ps.flatten⟩
-/-- `da.mean`: partial = `(total, n)`; the final division is left to the caller (exact rational). -/
-def redMean : Red Int (Int × Int) (Int × Int) :=
-  ⟨fun b => some (isum b, b.length), fun ps => (isum (ps.map (·.1)), isum (ps.map (·.2))),
-   fun ps => (isum (ps.map (·.1)), isum (ps.map (·.2)))⟩
+def maxOpt : Option Int → Int → Option Int
+  | none, v => some v
+  | some a, v => some (if a < v then v else a)
+def minOpt : Option Int → Int → Option Int
+  | none, v => some v
+  | some a, v => some (if v < a then v else a)
 
-/-! ### arg-reductions: partial = `(value, global flat index)` -/
+/-- `Series.max(skipna)`: NaN for an empty / all-NaN block; with `skipna=False` NaN as soon as one NaN (or nothing) is there -/
+def maxK (skipna : Bool) (p : List Cell) : Cell :=
+  if !skipna && p.any Option.isNone then none else (valid p).foldl maxOpt none
+def minK (skipna : Bool) (p : List Cell) : Cell :=
+  if !skipna && p.any Option.isNone then none else (valid p).foldl minOpt none
 
-/-- position of the first minimum w.r.t. `lt` (strict "better than") in a non-empty list -/
-def argBest (lt : Int → Int → Bool) : List Int → Option (Int × Nat)
-  | [] => none
-  | x :: xs =>
-    let rec go (best : Int) (bi : Nat) (i : Nat) : List Int → Int × Nat
-      | [] => (best, bi)
-      | y :: ys => if lt y best then go y i (i + 1) ys else go best bi (i + 1) ys
-    some (go x 0 1 xs)
+/-- `Series.count()` -/
+def countK (p : List Cell) : Nat := (valid p).length
 
-/-- `np.unravel_index(i, shape)` (C order) -/
-def unravel : List Nat → Nat → List Nat
-  | [], _ => []
-  | _ :: rest, i =>
-    let stride := rest.foldl (· * ·) 1
-    (i / stride) :: unravel rest (i % stride)
+/-! ## dask reductions on a partitioned column -/
 
-/-- `np.ravel_multi_index(idx, shape)` (C order) -/
-def ravel : List Nat → List Nat → Nat
-  | _ :: srest, i :: irest => i * srest.foldl (· * ·) 1 + ravel srest irest
-  | _, _ => 0
+/-- `Sum/Prod/Max/Min`: `reduction_chunk` is the pandas method; `combine`/`aggregate` apply the same
+    method to the concatenated partial results -/
+def kernelReduce (se : Option Nat) (kernel : List Cell → Cell) (parts : List (List Cell)) : Option Cell :=
+  aca se kernel kernel kernel parts
 
-/-- `arg_chunk` for a raveled reduction (`axis=None` or 1-d): block of shape `bshape` at
-    `offset` inside an array of shape `total`. -/
-def argChunk (lt : Int → Int → Bool) (bshape offset total : List Nat) (b : List Int) : Option (Int × Nat) :=
-  (argBest lt b).map fun (v, i) =>
-    (v, ravel total (List.zipWith (· + ·) offset (unravel bshape i)))
+/-- `Count`: chunk `count`, combine/aggregate `sum` -/
+def daskCount (se : Option Nat) (parts : List (List Cell)) : Option Nat :=
+  aca se countK (fun bs => bs.foldl (· + ·) 0) (fun bs => bs.foldl (· + ·) 0) parts
 
-/-- `_arg_combine` (after the tie fix): best value; among equal values the smallest flat index. -/
-def argCombine (lt : Int → Int → Bool) : List (Int × Nat) → Option (Int × Nat)
-  | [] => none
-  | p :: ps => some (ps.foldl (fun b q => if lt q.1 b.1 || (q.1 == b.1 && q.2 < b.2) then q else b) p)
-
-/-! ### top-k: values are kept as multisets, represented by sorted lists -/
-
-def insertSorted (le : Int → Int → Bool) (x : Int) : List Int → List Int
-  | [] => [x]
-  | y :: ys => if le x y then x :: y :: ys else y :: insertSorted le x ys
-
-def isort (le : Int → Int → Bool) : List Int → List Int
-  | [] => []
-  | x :: xs => insertSorted le x (isort le xs)
-
-/-- `chunk.topk(a, k)`: the `k` largest (`k > 0`) or `-k` smallest (`k < 0`) as a multiset (sorted here) -/
-def topkPart (k : Int) (xs : List Int) : List Int :=
-  if k ≥ 0 then (isort (fun a b => decide (b ≤ a)) xs).take k.toNat
-  else (isort (fun a b => decide (a ≤ b)) xs).take (-k).toNat
-
-def redTopk (k : Int) : Red Int (List Int) (List Int) :=
-  ⟨fun b => some (topkPart k b), fun ps => topkPart k ps.flatten, fun ps => topkPart k ps.flatten⟩
-
-/-- run a reduction on the blocks of a grid (C order) -/
-def Red.run (r : Red α β γ) (numblocks : List Nat) (split : List (Option Nat)) (keepdims : Bool)
-    (depth : Nat) (blocks : List (List α)) : Option (Grid γ) := do
-  let parts ← blocks.mapM r.chunk
-  gridReduce r.combine r.aggregate numblocks split keepdims depth (mkGrid numblocks parts)
-
-/-- 1-d version used by the theorems -/
-def Red.run1 (r : Red α β γ) (k depth : Nat) (blocks : List (List α)) : Option (List γ) :=
-  (blocks.mapM r.chunk).map (treeReduce r.combine r.aggregate k depth)
+/-- `Mean._lower`: `(frame.sum(skipna), frame.count())`, divided by `MeanAggregate`; returned as the exact pair -/
+def daskMean (se : Option Nat) (skipna : Bool) (parts : List (List Cell)) : Option (Cell × Nat) :=
+  match kernelReduce se (sumK skipna) parts, daskCount se parts with
+  | some s, some c => some (s, c)
+  | _, _ => none
 
 end Dask.TreeReduce
